@@ -3643,3 +3643,110 @@ func reachesAdd(c *Ctx, f, add *types.Func, depth int) bool {
 	}
 	return false
 }
+
+// ---- C06.R9: an immutable reference in the place chain need not have a name ---------------------------------------
+
+func init() {
+	lateInits = append(lateInits, func() {
+		props["C06"].Quick = append(props["C06"].Quick, c06R9)
+		props["C07"].Quick = append(props["C07"].Quick, c06R9)
+		props["C06"].Explanation += " (R9) the mutability gate finds an immutable reference anywhere in the place chain: in findImmutableRefInChain the selector and the index case return the result of a test of the base expression's own type (a call result, a struct field or an array element holding a &T), checkMutability accepts a finding without a symbol, and the &'-receiver method call tests the type of the value it is called on."
+	})
+}
+
+func c06R9(c *Ctx, r *Report) {
+	const rule = "C06.R9"
+	r.Describe(rule, "typechecker.findImmutableRefInChain: the *ast.SelectorExpr and *ast.IndexExpr clauses return the result of a function that reads ReferenceType.Mutable on the base expression; checkMutability treats a non-nil location as a finding; checkSelectorExpr calls that function on the receiver expression of a &'-receiver method")
+	fn := c.LookupFn(pkgTC, "findImmutableRefInChain")
+	cm := c.LookupFn(pkgTC, "checkMutability")
+	cs := c.LookupFn(pkgTC, "checkSelectorExpr")
+	fld := c.fieldObj(pkgTypes, "ReferenceType", "Mutable")
+	if !r.Anchor(rule, fn != nil && cm != nil && cs != nil && fld != nil, "typechecker findImmutableRefInChain / checkMutability / checkSelectorExpr / ReferenceType.Mutable") {
+		return
+	}
+	readsMutable := func(f *types.Func) bool {
+		hf := c.FnOf(f)
+		if hf == nil || hf.Decl == nil || hf.Decl.Body == nil || f == fn.Obj {
+			return false
+		}
+		hit := false
+		ast.Inspect(hf.Decl.Body, func(x ast.Node) bool {
+			if sel, ok := x.(*ast.SelectorExpr); ok && hf.Info().Uses[sel.Sel] == fld {
+				hit = true
+			}
+			return true
+		})
+		return hit
+	}
+	info := fn.Info()
+	for _, tn := range []string{"SelectorExpr", "IndexExpr"} {
+		var cc *ast.CaseClause
+		ast.Inspect(fn.Decl.Body, func(x ast.Node) bool {
+			if cl, ok := x.(*ast.CaseClause); ok && cc == nil {
+				for _, t := range caseTypes(info, cl) {
+					if nt := namedOf(t); nt != nil && nt.Obj().Name() == tn {
+						cc = cl
+					}
+				}
+			}
+			return true
+		})
+		if !r.Anchor(rule, cc != nil, "findImmutableRefInChain: case *ast."+tn) {
+			continue
+		}
+		ok := false
+		for _, st := range cc.Body {
+			ast.Inspect(st, func(x ast.Node) bool {
+				ret, isRet := x.(*ast.ReturnStmt)
+				if !isRet {
+					return true
+				}
+				for _, e := range ret.Results {
+					if cl, isCall := ast.Unparen(e).(*ast.CallExpr); isCall {
+						if f := callee(info, cl); f != nil && readsMutable(f) {
+							for _, a := range cl.Args {
+								if strings.HasSuffix(exprStr(a), ".X") {
+									ok = true
+								}
+							}
+						}
+					}
+				}
+				return true
+			})
+		}
+		r.Check(ok, rule, fn.Name(), "case "+tn+": the type of the base expression is tested", c.pos(cc.Pos()),
+			"only variables are recognised as immutable references: a &T that is a call result, a struct field or an array element is written through — `type Holder struct { .P: &Point }; h.P.X = 5;` and `let arr: [1]&Point = [&p]; arr[0].X = 5;` change p")
+	}
+	// checkMutability: a location alone is a finding
+	locOnly := false
+	ast.Inspect(cm.Decl.Body, func(x ast.Node) bool {
+		if ifs, ok := x.(*ast.IfStmt); ok {
+			s := exprStr(ifs.Cond)
+			if strings.Contains(s, "loc != nil") {
+				ast.Inspect(ifs.Body, func(y ast.Node) bool {
+					if id, ok := y.(*ast.Ident); ok && id.Name == "MutabilityImmutableRef" {
+						locOnly = true
+					}
+					return true
+				})
+			}
+		}
+		return true
+	})
+	r.Check(locOnly, rule, cm.Name(), "an unnamed immutable reference is a finding", c.pos(cm.Decl.Pos()), "checkMutability reports an immutable reference only when a symbol was found: the unnamed ones are dropped")
+	// checkSelectorExpr: &'-receiver call on a value of immutable reference type
+	csInfo := cs.Info()
+	recvTest := false
+	for _, cl := range callsIn(cs.Decl.Body, true) {
+		if f := callee(csInfo, cl); f != nil && readsMutable(f) && f.Name() != "checkMutability" {
+			for _, a := range cl.Args {
+				if strings.HasSuffix(exprStr(a), ".X") {
+					recvTest = true
+				}
+			}
+		}
+	}
+	r.Check(recvTest, rule, cs.Name(), "a &'-receiver method is not called on an immutable reference value", c.pos(cs.Decl.Pos()),
+		"`get(&p).bump()` with `fn get(p: &Point) -> &Point` and `fn (p: &'Point) bump()` is accepted and changes p through the immutable reference")
+}
